@@ -461,6 +461,164 @@ def no_brackets(*ss):
     return not any(("[" in s and "]" in s) for s in ss if s)
 
 
+# ============================================================================ histories: ONE object, SEVERAL requests
+COND_EXTRA = {"plain": {}, "304": {"HTTP_IF_NONE_MATCH": '"tag"'}, "206": {"HTTP_RANGE": "bytes=2-5"},
+              "416": {"HTTP_RANGE": "bytes=50-60"}}
+
+
+def build_app(app):
+    """A new, identically constructed WSGI app of the kind described by `app`."""
+    from webob import Response, exc
+    if app["type"] == "move":
+        cls = getattr(exc, app["class"])
+        return cls(add_slash=True) if app.get("add_slash") else cls(location=app.get("value"))
+    hl = [("Content-Type", "text/plain"), ("Content-Length", "10"), ("ETag", '"tag"'),
+          (app.get("key") or "Location", app["value"])]
+    r = Response(status="200 OK", headerlist=hl, app_iter=[b"0123456789"])
+    if app["type"] == "conditional":
+        r.conditional_response = True
+    return r
+
+
+def app_state(app, obj):
+    """What serving a request must leave alone: the stored location (and, for a Response, every header)."""
+    locs = [v for k, v in obj.headerlist if k.lower() == "location"]
+    if app["type"] == "move":
+        return [obj.location, locs]
+    return [obj.location, [list(h) for h in obj.headerlist]]
+
+
+def serve(obj, app, step):
+    got = {}
+
+    def start_response(status, headers, exc_info=None):
+        got["status"] = status
+        got["headers"] = list(headers)
+
+    extra = COND_EXTRA[step.get("cond") or "plain"] if app["type"] == "conditional" else {}
+    try:
+        for _ in obj(wsgi_environ(step["env"], method=step.get("method") or "GET", extra=extra), start_response):
+            pass
+    except Exception as ex:  # noqa
+        return ["raise", type(ex).__name__]
+    return [got["status"][:3], [v for k, v in got["headers"] if k.lower() == "location"]]
+
+
+def check_history(case):
+    """ONE long-lived app serves the steps in order.  Every answer must be the answer of a brand-new identical app
+    to that request, must carry that request's own origin (or the unchanged absolute URL), and the app's stored
+    location / headers must be what they were before the first request."""
+    app, steps = case["app"], case["steps"]
+    kind = "move" if app["type"] == "move" else "response"
+    try:
+        obj = build_app(app)
+    except Exception:  # noqa  (constructor refuses the value: nothing to serve)
+        return None
+    state0 = app_state(app, obj)
+    rewritten = None
+    v = app.get("value")
+    for i, step in enumerate(steps):
+        got = serve(obj, app, step)
+        fresh = serve(build_app(app), app, step)
+        e = step["env"]
+        where = "request #%d (%s://%s%s%s) to ONE %s(%s)" % (
+            i + 1, e["scheme"], e["host"] or (e["name"] + ":" + e["port"]), e["script"] or "", e["path"] or "",
+            app.get("class") or app["type"], "add_slash=True" if app.get("add_slash") else "location=%r" % (v,))
+        if got != fresh:
+            return ("%s:instance-answers-differ-from-fresh" % kind,
+                    "%s answered %r, a fresh identical object answers %r (earlier requests: %s)"
+                    % (where, got, fresh, ", ".join("%s://%s" % (s["env"]["scheme"], s["env"]["host"] or s["env"]["name"])
+                                                    for s in steps[:i]) or "none"))
+        if got[0] != "raise":
+            if len(got[1]) != 1:
+                return ("%s:location-count" % kind, "%s emitted %r" % (where, got[1]))
+            if v is not None and not app.get("add_slash") and has_alpha_scheme(v):
+                if got[1][0] != v:
+                    return ("%s:absolute-url-rewritten" % kind, "%s emitted %r" % (where, got[1][0]))
+            elif whatwg_origin(got[1][0]) != expected_origin(e):
+                return ("%s:instance-wrong-origin" % kind, "%s emitted %r, not the request's origin %r"
+                        % (where, got[1][0], expected_origin(e)))
+        st = app_state(app, obj)
+        if st != state0 and rewritten is None:      # keep going: a wrong later answer is the plainer report
+            rewritten = ("%s:stored-location-rewritten" % kind,
+                         "%s: serving changed the object's stored state from %r to %r" % (where, state0, st))
+    return rewritten
+
+
+def order_check(items):
+    import subprocess
+    import sys
+    fwd = [list(emit("static", e, v)[:2]) for e, v in items]
+    code = ("import json,sys\nfrom harness.props import c14\nitems=json.load(sys.stdin)\n"
+            "print(json.dumps([list(c14.emit('static', e, v)[:2]) for e, v in reversed(items)][::-1]))")
+    p = subprocess.run([sys.executable, "-B", "-c", code], input=json.dumps([[e, v] for e, v in items]),
+                       capture_output=True, text=True, cwd=fw.ROOT)
+    if p.returncode != 0:
+        return "fresh interpreter failed: " + p.stderr[-300:]
+    bwd = json.loads(p.stdout)
+    for (e, v), x, y in zip(items, fwd, bwd):
+        if json.loads(json.dumps(x)) != y:
+            return ("Location %r on %r: %r in this process (after other requests), %r from a fresh interpreter serving the "
+                    "same requests in the reverse order" % (v, e, x, y))
+    return None
+
+
+def rand_history(rng, n=4):
+    t = rng.random()
+    if t < 0.5:
+        r = rng.random()
+        app = {"type": "move", "class": rng.choice(MOVE_CLASSES)}
+        if r < 0.2:
+            app["add_slash"] = True
+        elif r < 0.3:
+            app["value"] = None
+        else:
+            app["value"] = rand_value(rng, 6)
+    else:
+        app = {"type": "response" if t < 0.75 else "conditional", "value": rand_value(rng, 6),
+               "key": rng.choice(["Location", "location", "LOCATION"])}
+    steps = [{"env": rand_env(rng, ascii_paths=True, with_path=True), "method": rng.choice(["GET", "GET", "HEAD", "POST"]),
+              "cond": rng.choice(list(COND_EXTRA))} for _ in range(rng.randrange(2, n + 1))]
+    return {"kind": "history", "app": app, "steps": steps}
+
+
+def history_stage(ctx, seeds_only=False):
+    a = mkenv(host="a.example", path="/x/y", query="q=1")
+    b = mkenv(scheme="https", host="b.example:8443", script="/app", path="/z")
+    c = mkenv(host=None, name="srv.local", port="8080", script=None, path="//evil.com/x")
+    steps = [{"env": a, "method": "GET", "cond": "plain"}, {"env": b, "method": "HEAD", "cond": "304"},
+             {"env": c, "method": "GET", "cond": "206"}, {"env": a, "method": "GET", "cond": "416"}]
+    cases = []
+    for val in ["/login", "//evil.com/x", "\t//evil.com", "evil.com:80/x", "", "http://other.example/p?q"]:
+        cases.append({"kind": "history", "app": {"type": "move", "class": "HTTPFound", "value": val}, "steps": steps})
+        cases.append({"kind": "history", "app": {"type": "response", "value": val}, "steps": steps})
+        cases.append({"kind": "history", "app": {"type": "conditional", "value": val, "key": "location"}, "steps": steps})
+    cases.append({"kind": "history", "app": {"type": "move", "class": "HTTPSeeOther", "add_slash": True}, "steps": steps})
+    cases.append({"kind": "history", "app": {"type": "move", "class": "HTTPMovedPermanently", "value": None}, "steps": steps})
+    if not seeds_only:
+        rng = ctx.sub_rng("history")
+        cases += [rand_history(rng) for _ in range(ctx.scale(1500, 30000))]
+    nt = 0
+    for case in cases:
+        nt += 1
+        res = check_history(case)
+        if res:
+            ctx.fail(res[0], res[1], case, True, "history")
+    ctx.oracle_count("history", len(cases), nt)
+    if seeds_only:
+        return
+    # module-level state (urlsplit's lru_cache, compiled patterns, anything memoised): the same inputs answered in this
+    # long-running process, in this order, and by a brand-new interpreter in the reverse order
+    rng = ctx.sub_rng("order")
+    items = [(rand_env(rng), rand_value(rng, 6)) for _ in range(ctx.scale(600, 6000))]
+    items += [(e2, v) for (_, v), (e2, _) in zip(items[:200], items[200:400])]      # same value, other request
+    msg = order_check(items)
+    if msg:
+        ctx.fail("response:order-dependent", msg, {"kind": "order", "items": [[e_, v_] for e_, v_ in items]}, True, "order")
+    ctx.oracle_count("order", 2 * len(items), len(items))
+
+
+
 # ============================================================================ implementation adaptors (correspondence)
 def impl_urlsplit(url, scheme):
     from urllib.parse import urlsplit
@@ -598,6 +756,7 @@ def run(ctx):
         ctx.broken.append(p)
     ctx.build(["Props/C14.vo"])
     seed_stage(ctx)
+    history_stage(ctx, seeds_only=True)
     rng = ctx.sub_rng("corr")
 
     # ---- urllib.parse model vs urllib.parse
@@ -702,6 +861,51 @@ def run(ctx):
                    in_type="(environ * option str * bool)")
     _report_corr(ctx, "http_move", cases, bad)
 
+    # ---- ONE instance serving a sequence of different requests vs the (pure) model applied to each request
+    cases = []
+    for i in range(ctx.scale(300, 3000)):
+        h = rand_history(rng)
+        app, envs = h["app"], [st["env"] for st in h["steps"]]
+        if app["type"] == "move":
+            v, a = app.get("value"), bool(app.get("add_slash"))
+            try:
+                obj = build_app(app)
+                out = []
+                for st in h["steps"]:
+                    r = serve(obj, app, dict(st, cond="plain"))
+                    out.append(Err(r[1]) if r[0] == "raise" else (r[1][0] if len(r[1]) == 1 else Err("location-count")))
+            except Exception as ex:  # noqa
+                out = [Err(type(ex).__name__)] * len(envs)
+            cases.append(("(%s, Some (%s, %s), [])" % (clist(cenv(e) for e in envs), copt(None if v is None else cstr(v)), cbool(a)),
+                          out, {"history": h, "oracle_history": h}))
+        else:
+            hl = [("Content-Type", "text/plain"), ("Content-Length", "10"), ("ETag", '"tag"'),
+                  (app.get("key") or "Location", app["value"])]
+            obj = build_app({"type": "response", "value": app["value"], "key": app.get("key")})
+            out = []
+            for st in h["steps"]:
+                r = serve(obj, {"type": "response"}, st)
+                out.append(Err(r[1]) if r[0] == "raise" else (r[1][0] if len(r[1]) == 1 else Err("location-count")))
+            h2 = {"kind": "history", "app": dict(app, type="response"), "steps": h["steps"]}
+            cases.append(("(%s, None, %s)" % (clist(cenv(e) for e in envs), cheaders(hl)), out,
+                          {"history": h2, "oracle_history": h2}))
+    bad = ctx.corr("one_instance_history", IMPORTS,
+                   "(fun c => match c with "
+                   "| (es, Some (l, a), _) => VList (map (fun e => move_obs e l a) es) "
+                   "| (es, None, hl) => VList (map (fun e => match plain_headerlist e hl with "
+                   "HOk h => match locations h with [x] => VStr x | _ => VErr (A \"location-count\") end "
+                   "| HValueError => e_ValueError | HUnsupported => e_unsupported end) es) end)", cases,
+                   in_type="(list environ * option (option str * bool) * list header)")
+    for i in bad[:6]:
+        h = cases[i][2]["oracle_history"]
+        res = check_history(h)
+        if res:
+            ctx.fail(res[0], res[1], h, True, "corr")
+        else:
+            ctx.broken.append("correspondence one_instance_history: model and implementation disagree on %s (impl: %r)"
+                              % (json.dumps(h), cases[i][1]))
+
+    history_stage(ctx)
     oracle_sweep(ctx)
     ctx.extra["rule"] = (
         "correspondence: distinct (environ, value / header list / class) inputs, values = all strings <= 2 over "
@@ -877,10 +1081,15 @@ def oracle_sweep(ctx):
 def replay(ctx, path):
     data = json.load(open(path))
     case = data["case"]
-    if not isinstance(case, dict) or "path" not in case:
+    if not isinstance(case, dict) or ("path" not in case and case.get("kind") not in ("history", "order")):
         print("replay: nothing executable in this file (broken obligation): %s" % data.get("what"))
         return 1
-    if case.get("both"):
+    if case.get("kind") == "history":
+        res = check_history(case)
+    elif case.get("kind") == "order":
+        msg = order_check([(e, v) for e, v in case["items"]])
+        res = ("response:order-dependent", msg) if msg else None
+    elif case.get("both"):
         from webob import exc
         try:
             getattr(exc, case["path"][5:])(location="/x", add_slash=True)
